@@ -176,6 +176,9 @@ class Path:
         for k, (kind, val) in self.enums.items():
             if kind == "eq":
                 v[f"{k} == {val}"] = True
+            else:
+                for x in val:
+                    v[f"{k} == {x}"] = False
         return v
 
     def holds(self, atom):
@@ -215,12 +218,16 @@ class Emitter:
             for m in ci.methods:
                 self._owners.setdefault(m, []).append(cname)
         self.paths_total = 0
+        self._cache = {}
 
     # -- public --------------------------------------------------------------------------------
     def enumerate(self, qualname, bind=None, classes=None, atoms=None, self_class=None):
         """All emission paths of function `qualname`.
         bind: param name -> python constant (bound as SConst) ; classes: param -> concrete class name;
         atoms: initial valuation."""
+        ckey = (qualname, repr(sorted((bind or {}).items())), repr(sorted((classes or {}).items())), repr(sorted((atoms or {}).items())), self_class)
+        if ckey in self._cache:
+            return self._cache[ckey]
         fn = self.model.func(qualname)
         p = Path()
         p.classes = dict(classes or {})
@@ -247,7 +254,9 @@ class Emitter:
             if len(path.streams) == 1:
                 return next(iter(path.streams))
             return None
-        return FunctionPaths(qualname, paths, main_sid)
+        res = FunctionPaths(qualname, paths, main_sid)
+        self._cache[ckey] = res
+        return res
 
     # -- canonicalisation ----------------------------------------------------------------------
     def canon_node(self, expr, path):
@@ -924,6 +933,9 @@ class Emitter:
             for k, v in bp.enums.items():
                 if entry_enums.get(k) != v and v[0] == "eq":
                     delta[f"{k} == {v[1]}"] = True
+                elif entry_enums.get(k) != v:
+                    for x in v[1]:
+                        delta[f"{k} == {x}"] = False
             endkind = bp.end[0] if bp.end else "next"
             for sid in touched:
                 new_items = bp.streams.get(sid, [])[base_streams.get(sid, 0):]
